@@ -15,14 +15,17 @@ import (
 	"path/filepath"
 	"strings"
 	"sync"
+	"time"
 
 	"github.com/docker/libtrust"
 	digest "github.com/opencontainers/go-digest"
 	"pgregory.net/rapid"
 
 	"github.com/regclient/regclient"
+	"github.com/regclient/regclient/scheme/reg"
 	"github.com/regclient/regclient/types/descriptor"
 	"github.com/regclient/regclient/types/manifest"
+	"github.com/regclient/regclient/types/platform"
 	"github.com/regclient/regclient/types/ref"
 	"github.com/regclient/regclient/zz_verif/evid"
 	"github.com/regclient/regclient/zz_verif/rcutil"
@@ -37,7 +40,7 @@ type CaseA struct {
 	RawB64 []byte   `json:"raw_b64,omitempty"` // overrides Raw (arbitrary bytes from the fuzz target)
 	Origin string   `json:"origin"`            // gen | fuzz
 
-	Entry string `json:"entry"` // new | new-orig | reg-get | reg-head | layout-get | desc-data
+	Entry string `json:"entry"` // new | new-orig | reg-get | reg-head | layout-get | layout-head | desc-data | desc-data-layout
 
 	// expected-digest sources: absent | ok256 | ok512 | bad256 | bad512 | full256 | full512 | malformed
 	RefDig  string `json:"ref_dig"`
@@ -51,8 +54,14 @@ type CaseA struct {
 	Prefer512   bool   `json:"prefer512"`
 	Tag         bool   `json:"tag"`    // the reference carries a tag
 	Inline      string `json:"inline"` // desc-data: ok | corrupt
-	Repush      string `json:"repush"` // none | reg-tag | reg-digest | layout-tag | layout-digest
+	Repush      string `json:"repush"` // none | reg-tag | reg-digest | reg-digest-otheralg | layout-tag | layout-digest | layout-digest-otheralg
 	RequireDig  bool   `json:"require_digest"`
+
+	// dimensions added by the generator-domain audit
+	Cache      bool   `json:"cache,omitempty"`       // registry client built with reg.WithCache (as regctl / regsync do)
+	DefaultTag bool   `json:"default_tag,omitempty"` // the tag is the implicit "latest" (reference written without a tag)
+	Platform   bool   `json:"platform,omitempty"`    // reg-get / layout-get: the body is reached through WithManifestPlatform from a wrapper index; DescDig is the wrapper's entry digest
+	Again      string `json:"again,omitempty"`       // "" | get | head | edit-get | edit-head | put-edit-get : a second fetch by the reported digest
 }
 
 var digModes = []string{"absent", "absent", "absent", "ok256", "ok256", "ok512", "bad256", "bad512", "full256", "full512", "malformed"}
@@ -79,7 +88,8 @@ func genA(t *rapid.T) CaseA {
 	c := CaseA{Origin: "gen"}
 	c.Family = rapid.SampledFrom(families).Draw(t, "family")
 	c.Raw, c.Info = genBody(t, c.Family, true)
-	c.Entry = rapid.SampledFrom([]string{"new", "new", "new", "new-orig", "reg-get", "reg-get", "reg-get", "reg-head", "layout-get", "layout-get", "desc-data"}).Draw(t, "entry")
+	c.Entry = rapid.SampledFrom([]string{"new", "new", "new", "new-orig", "reg-get", "reg-get", "reg-get", "reg-head", "layout-get", "layout-get", "desc-data",
+		"reg-get", "layout-head", "desc-data-layout", "new", "reg-get"}).Draw(t, "entry")
 	c.RefDig = rapid.SampledFrom(digModes).Draw(t, "ref_dig")
 	c.DescDig = rapid.SampledFrom(digModes).Draw(t, "desc_dig")
 	c.HdrDig = rapid.SampledFrom(digModes).Draw(t, "hdr_dig")
@@ -95,9 +105,23 @@ func genA(t *rapid.T) CaseA {
 	c.Prefer512 = rapid.IntRange(0, 4).Draw(t, "prefer512") == 0
 	c.Tag = rapid.Bool().Draw(t, "tag")
 	c.Inline = rapid.SampledFrom([]string{"ok", "ok", "corrupt"}).Draw(t, "inline")
-	c.Repush = rapid.SampledFrom([]string{"none", "reg-tag", "reg-tag", "reg-digest", "layout-tag", "layout-digest"}).Draw(t, "repush")
+	c.Repush = rapid.SampledFrom([]string{"none", "reg-tag", "reg-tag", "reg-digest", "layout-tag", "layout-digest", "reg-digest-otheralg", "layout-digest-otheralg"}).Draw(t, "repush")
 	c.RequireDig = rapid.Bool().Draw(t, "require_digest")
+	c.Cache = rapid.Bool().Draw(t, "cache")
+	c.DefaultTag = rapid.IntRange(0, 3).Draw(t, "default_tag") == 3
+	c.Platform = rapid.IntRange(0, 3).Draw(t, "platform") == 3
+	c.Again = rapid.SampledFrom([]string{"", "", "get", "head", "edit-get", "edit-get", "edit-head", "put-edit-get"}).Draw(t, "again")
 	// normalise what an entry cannot express
+	if c.Entry != "reg-get" && c.Entry != "layout-get" {
+		c.Platform = false
+	}
+	if c.Platform {
+		// the wrapper index is fetched by tag; its entry carries the digest the body is obtained for
+		c.RefDig, c.Tag = "absent", true
+		if c.DescDig == "absent" {
+			c.DescDig = "ok256"
+		}
+	}
 	switch c.Entry {
 	case "reg-get", "reg-head":
 		if c.CL == "wrong" {
@@ -109,14 +133,20 @@ func genA(t *rapid.T) CaseA {
 		if c.Entry == "reg-head" {
 			c.DescDig = "absent"
 		}
-	case "desc-data":
+	case "desc-data", "desc-data-layout":
 		if c.CL == "wrong" {
 			c.CL = "ok"
 		}
 		if c.DescDig == "absent" || c.DescDig == "malformed" {
 			c.DescDig = "ok256"
 		}
-	case "layout-get":
+		if c.Entry == "desc-data-layout" {
+			c.HdrDig, c.ContentType, c.CL = "absent", "", "absent"
+			if c.RefDig == "absent" {
+				c.Tag = true
+			}
+		}
+	case "layout-get", "layout-head":
 		c.HdrDig, c.ContentType, c.CL = "absent", "", "absent"
 		if c.RefDig == "absent" {
 			c.Tag = true
@@ -200,8 +230,25 @@ const (
 	refName = "org.opencontainers.image.ref.name"
 )
 
+// defaultTag selects the reference form without an explicit tag for mkRef.
 func mkRef(base string, tag bool, dig string) (ref.Ref, bool) {
-	r, err := ref.New(base + ":" + theTag)
+	return mkRefT(base, tag, dig, false)
+}
+
+func (c *CaseA) tagName() string {
+	if c.DefaultTag {
+		return "latest"
+	}
+	return theTag
+}
+
+// mkRefT: with deflt the reference is written without a tag (the schemes fill in "latest").
+func mkRefT(base string, tag bool, dig string, deflt bool) (ref.Ref, bool) {
+	name := base + ":" + theTag
+	if deflt {
+		name = base
+	}
+	r, err := ref.New(name)
 	if err != nil {
 		return r, false
 	}
@@ -366,39 +413,44 @@ func (c *CaseA) run(served, nm []byte, tmp func() string) fetched {
 		model, src, _ := newModel()
 		f.model = model
 		c.serve(src, served, hdrDig)
-		f.rc = rcutil.New(model, rcutil.Conf{})
-		r, ok := mkRef(srcHost+"/"+srcRepo, c.Tag, refDig)
+		conf := rcutil.Conf{}
+		if c.Cache {
+			conf.RegOpts = []reg.Opts{reg.WithCache(5*time.Minute, 500)}
+		}
+		f.rc = rcutil.New(model, conf)
+		r, ok := mkRefT(srcHost+"/"+srcRepo, c.Tag, refDig, c.DefaultTag)
 		if !ok {
-			r, _ = mkRef(srcHost+"/"+srcRepo, true, refDig)
+			r, _ = mkRefT(srcHost+"/"+srcRepo, true, refDig, c.DefaultTag)
 		}
 		var opts []regclient.ManifestOpts
-		if c.Entry == "desc-data" {
-			data := served
-			if c.Inline == "corrupt" {
-				data = append([]byte{}, served...)
-				if len(data) > 0 {
-					data[len(data)/2] ^= 0x20
-				} else {
-					data = []byte("x")
+		switch {
+		case c.Entry == "desc-data":
+			c.inlineDesc(&desc, &descDig, served, nm)
+			opts = append(opts, regclient.WithManifestDesc(desc))
+			chain([2]string{"desc", descDig}, [2]string{"ref", refDig}, [2]string{"header", hdrEff})
+		case c.Entry == "reg-get" && c.Platform:
+			// tag -> wrapper index (honest) -> entry digest -> the body
+			wrapper := wrapperIndex(c.wrapperEntryMT(), descDig, descSize(c.DescSize, len(nm)))
+			child := src.Intercept
+			tagName := c.tagName()
+			src.Intercept = func(m *rm.Model, h *rm.Host, e *rm.Entry, req *http.Request) *rm.Resp {
+				if (e.Class == "manifest-get" || e.Class == "manifest-head") && e.Repo == srcRepo && e.Ref == tagName {
+					rr := &rm.Resp{Status: 200, Header: http.Header{}, Body: wrapper, TruncateAt: -1}
+					rr.Header.Set("Content-Type", mtOCIIndex)
+					rr.Header.Set("Docker-Content-Digest", hashOf("sha256", wrapper))
+					return rr
 				}
+				return child(m, h, e, req)
 			}
-			desc.Data = data
-			desc.Size = descSize(c.DescSize, len(served))
-			if c.DescSize == "zero" {
-				desc.Size = int64(len(served))
-			}
-			// the inline copy is verified against the digest of the data itself
-			if c.DescDig == "ok256" || c.DescDig == "ok512" {
-				desc.Digest = digest.Digest(digestFor("full"+c.DescDig[2:], nm, served))
-				descDig = string(desc.Digest)
-			}
+			opts = append(opts, regclient.WithManifestPlatform(platform.Platform{OS: "linux", Architecture: "amd64"}))
+			chain([2]string{"index-entry", descDig}, [2]string{"header", hdrEff})
+		case c.Entry == "reg-get" && descDig != "":
 			opts = append(opts, regclient.WithManifestDesc(desc))
-		} else if c.Entry == "reg-get" && descDig != "" {
-			opts = append(opts, regclient.WithManifestDesc(desc))
-		} else {
+			chain([2]string{"desc", descDig}, [2]string{"ref", refDig}, [2]string{"header", hdrEff})
+		default:
 			descDig = ""
+			chain([2]string{"ref", refDig}, [2]string{"header", hdrEff})
 		}
-		chain([2]string{"desc", descDig}, [2]string{"ref", refDig}, [2]string{"header", hdrEff})
 		if c.Entry == "reg-head" {
 			if c.RequireDig {
 				opts = append(opts, regclient.WithManifestRequireDigest())
@@ -407,49 +459,124 @@ func (c *CaseA) run(served, nm []byte, tmp func() string) fetched {
 		} else {
 			f.m, f.err = f.rc.ManifestGet(ctx, r, opts...)
 		}
-	case "layout-get":
+	case "layout-get", "layout-head", "desc-data-layout":
 		dir := tmp()
 		if err := os.WriteFile(filepath.Join(dir, "oci-layout"), []byte(`{"imageLayoutVersion":"1.0.0"}`), 0o644); err != nil {
 			f.skip = "fs"
 			return f
 		}
-		entries := []string{}
-		if descDig != "" {
-			e := map[string]any{"digest": descDig, "size": descSize(c.DescSize, len(nm))}
-			if c.DescMT != "" {
-				e["mediaType"] = c.DescMT
+		writeBlob := func(d string, b []byte) bool {
+			alg, ok := digestAlg(d)
+			if !ok {
+				return true
 			}
+			p := filepath.Join(dir, "blobs", alg)
+			_ = os.MkdirAll(p, 0o755)
+			return os.WriteFile(filepath.Join(p, d[len(alg)+1:]), b, 0o644) == nil
+		}
+		entries := []string{}
+		var mopts []regclient.ManifestOpts
+		switch {
+		case c.Entry == "layout-get" && c.Platform:
+			wrapper := wrapperIndex(c.wrapperEntryMT(), descDig, descSize(c.DescSize, len(nm)))
+			wd := hashOf("sha256", wrapper)
+			e := map[string]any{"mediaType": mtOCIIndex, "digest": wd, "size": len(wrapper), "annotations": map[string]string{refName: c.tagName()}}
+			b, _ := json.Marshal(e)
+			entries = append(entries, string(b))
+			if !writeBlob(wd, wrapper) || !writeBlob(descDig, served) {
+				f.skip = "fs"
+				return f
+			}
+			mopts = append(mopts, regclient.WithManifestPlatform(platform.Platform{OS: "linux", Architecture: "amd64"}))
+			chain([2]string{"index-entry", descDig})
+		case c.Entry == "desc-data-layout":
+			// the index knows the manifest under the digest of the reference (if any) only
+			c.inlineDesc(&desc, &descDig, served, nm)
+			e := map[string]any{"mediaType": famMT(c.Family), "digest": descDig, "size": len(served)}
 			if c.Tag {
-				e["annotations"] = map[string]string{refName: theTag}
+				e["annotations"] = map[string]string{refName: c.tagName()}
 			}
 			b, _ := json.Marshal(e)
 			entries = append(entries, string(b))
+			if !writeBlob(descDig, served) || !writeBlob(refDig, served) {
+				f.skip = "fs"
+				return f
+			}
+			mopts = append(mopts, regclient.WithManifestDesc(desc))
+			chain([2]string{"desc", descDig}, [2]string{"ref", refDig})
+		default:
+			if descDig != "" {
+				e := map[string]any{"digest": descDig, "size": descSize(c.DescSize, len(nm))}
+				if c.DescMT != "" {
+					e["mediaType"] = c.DescMT
+				}
+				if c.Tag {
+					e["annotations"] = map[string]string{refName: c.tagName()}
+				}
+				b, _ := json.Marshal(e)
+				entries = append(entries, string(b))
+			}
+			if !writeBlob(descDig, served) || !writeBlob(refDig, served) {
+				f.skip = "fs"
+				return f
+			}
+			chain([2]string{"ref", refDig}, [2]string{"index", descDig})
 		}
 		idx := `{"schemaVersion":2,"mediaType":"` + mtOCIIndex + `","manifests":[` + strings.Join(entries, ",") + `]}`
 		if err := os.WriteFile(filepath.Join(dir, "index.json"), []byte(idx), 0o644); err != nil {
 			f.skip = "fs"
 			return f
 		}
-		for _, d := range []string{descDig, refDig} {
-			if alg, ok := digestAlg(d); ok {
-				p := filepath.Join(dir, "blobs", alg)
-				_ = os.MkdirAll(p, 0o755)
-				if err := os.WriteFile(filepath.Join(p, d[len(alg)+1:]), served, 0o644); err != nil {
-					f.skip = "fs"
-					return f
-				}
-			}
-		}
-		r, ok := mkRef("ocidir://"+dir, c.Tag, refDig)
+		r, ok := mkRefT("ocidir://"+dir, c.Tag, refDig, c.DefaultTag)
 		if !ok {
 			f.skip = "ref"
 			return f
 		}
 		f.rc = regclient.New()
-		chain([2]string{"ref", refDig}, [2]string{"index", descDig})
-		f.m, f.err = f.rc.ManifestGet(ctx, r)
+		if c.Entry == "layout-head" {
+			f.m, f.err = f.rc.ManifestHead(ctx, r, mopts...)
+		} else {
+			f.m, f.err = f.rc.ManifestGet(ctx, r, mopts...)
+		}
 	}
 	return f
+}
+
+// inlineDesc completes the descriptor of the inline-data entries.
+func (c *CaseA) inlineDesc(desc *descriptor.Descriptor, descDig *string, served, nm []byte) {
+	data := served
+	if c.Inline == "corrupt" {
+		data = append([]byte{}, served...)
+		if len(data) > 0 {
+			data[len(data)/2] ^= 0x20
+		} else {
+			data = []byte("x")
+		}
+	}
+	desc.Data = data
+	desc.Size = descSize(c.DescSize, len(served))
+	if c.DescSize == "zero" {
+		desc.Size = int64(len(served))
+	}
+	// the inline copy is verified against the digest of the data itself
+	if c.DescDig == "ok256" || c.DescDig == "ok512" {
+		desc.Digest = digest.Digest(digestFor("full"+c.DescDig[2:], nm, served))
+		*descDig = string(desc.Digest)
+	}
+}
+
+func (c *CaseA) wrapperEntryMT() string {
+	if c.DescMT != "" {
+		return c.DescMT
+	}
+	return famMT(c.Family)
+}
+
+// wrapperIndex is an honest OCI index with one linux/amd64 entry.
+func wrapperIndex(mt, dig string, size int64) []byte {
+	e := map[string]any{"mediaType": mt, "digest": dig, "size": size, "platform": map[string]string{"architecture": "amd64", "os": "linux"}}
+	b, _ := json.Marshal(map[string]any{"schemaVersion": 2, "mediaType": mtOCIIndex, "manifests": []any{e}})
+	return b
 }
 
 func srcLabel(kind, mode string) string { return kind + ":" + mode }
@@ -548,6 +675,25 @@ func checkA(c CaseA, ev *evid.Collector) []*evid.Violation {
 	if c.Prefer512 {
 		classes = append(classes, "prefer512")
 	}
+	if c.Cache && f.model != nil {
+		classes = append(classes, "reg-cache:on")
+	}
+	if c.DefaultTag && c.Tag {
+		classes = append(classes, "ref:default-tag")
+	}
+	if c.Platform {
+		classes = append(classes, "via-platform:"+outcome)
+	}
+	switch {
+	case c.Tag && c.RefDig != "absent":
+		classes = append(classes, "refform:tag+digest")
+	case c.Tag:
+		classes = append(classes, "refform:tag")
+	case c.RefDig != "absent":
+		classes = append(classes, "refform:digest")
+	default:
+		classes = append(classes, "refform:none")
+	}
 	if !validBody {
 		classes = append(classes, "body:outside-grammar")
 	}
@@ -584,7 +730,7 @@ func checkA(c CaseA, ev *evid.Collector) []*evid.Violation {
 		if !s.MJErr && len(s.MJ) > 0 {
 			add("unset-manifest-marshals", "IsSet()=false but MarshalJSON() returned %d bytes", len(s.MJ))
 		}
-		if validBody && c.Origin == "gen" && c.allCorrect(bodyStatesMT) && c.Entry != "reg-head" && len(served) > 0 {
+		if validBody && c.Origin == "gen" && c.allCorrect(bodyStatesMT) && c.Entry != "reg-head" && c.Entry != "layout-head" && len(served) > 0 {
 			add("valid-manifest-returned-unset", "a non-empty valid body was served but the manifest is not set")
 		}
 		return vs
@@ -631,7 +777,107 @@ func checkA(c CaseA, ev *evid.Collector) []*evid.Violation {
 	}
 	// ---- (5) re-push
 	vs = append(vs, c.repush(f, m, s, tag, tmp, ev, hasSig(vs, sigSignedTrim))...)
+	if blocking(vs) {
+		return vs
+	}
+	// ---- a second fetch by the reported digest (cache on or off, before / after the caller edits its copy)
+	vs = append(vs, c.again(f, m, s, ev)...)
 	return vs
+}
+
+// edit changes the caller's copy of a fetched manifest through a setter. It
+// reports whether the serialisation really changed.
+func editManifest(m manifest.Manifest, before snap) bool {
+	if ma, ok := m.(manifest.Annotator); ok {
+		if ma.SetAnnotation("org.example.c02-audit", "edited") != nil {
+			return false
+		}
+	} else if before.MT == mtDocker1 {
+		var mm map[string]json.RawMessage
+		if json.Unmarshal(before.Raw, &mm) != nil {
+			return false
+		}
+		mm["tag"] = json.RawMessage(`"c02-audit-edited"`)
+		doc, err := json.Marshal(mm)
+		if err != nil {
+			return false
+		}
+		o, err := origOf("schema1", doc)
+		if err != nil || m.SetOrig(o) != nil {
+			return false
+		}
+	} else {
+		return false
+	}
+	after, err := m.RawBody()
+	return err == nil && !bytes.Equal(after, before.Raw)
+}
+
+// again: whatever the client hands out for "<repo>@<digest>" afterwards must
+// still be bytes that hash to that digest - also when the client keeps a cache
+// (reg.WithCache, as regctl and regsync configure it) and the caller has edited
+// the manifest it was given, or has pushed it and edited it afterwards.
+func (c *CaseA) again(f fetched, m manifest.Manifest, s snap, ev *evid.Collector) []*evid.Violation {
+	if c.Again == "" || f.rc == nil || f.model == nil {
+		return nil
+	}
+	alg, ok := digestAlg(s.Digest)
+	if !ok {
+		return nil
+	}
+	ctx := context.Background()
+	cacheLbl := map[bool]string{true: "cache", false: "nocache"}[c.Cache]
+	base := srcHost + "/" + srcRepo
+	edited := false
+	switch c.Again {
+	case "edit-get", "edit-head":
+		edited = editManifest(m, s)
+	case "put-edit-get":
+		r, _ := mkRef(tgtHost+"/"+tgtRepo, true, "")
+		if err := f.rc.ManifestPut(ctx, r, m); err != nil {
+			ev.Class("again:" + c.Again + ":put-failed")
+			return nil
+		}
+		edited = editManifest(m, s)
+		base = tgtHost + "/" + tgtRepo
+	}
+	r, _ := mkRef(base, false, s.Digest)
+	var m2 manifest.Manifest
+	var err error
+	if c.Again == "head" || c.Again == "edit-head" {
+		m2, err = f.rc.ManifestHead(ctx, r)
+	} else {
+		m2, err = f.rc.ManifestGet(ctx, r)
+	}
+	lbl := "again:" + c.Again + ":" + cacheLbl
+	if !edited && strings.Contains(c.Again, "edit") {
+		lbl += ":no-edit-possible"
+	}
+	if err != nil || m2 == nil {
+		ev.Class(lbl + ":error")
+		return nil
+	}
+	if !m2.IsSet() {
+		ev.Class(lbl + ":unset")
+		if d := m2.GetDescriptor().Digest.String(); d != "" && d != s.Digest {
+			return []*evid.Violation{evid.V("refetch-head-reports-other-digest:"+c.Again, "ManifestHead(%s) reports digest %s", r.CommonName(), d)}
+		}
+		return nil
+	}
+	ev.Class(lbl + ":set")
+	s2 := observe(m2)
+	doc, ok, _ := named(s2.MT, s2.Raw)
+	if !ok {
+		return nil
+	}
+	if got := hashOf(alg, doc); got != s.Digest || s2.Digest != s.Digest {
+		cur, _ := m.RawBody()
+		if c.Cache && edited && bytes.Equal(cur, s2.Raw) {
+			return []*evid.Violation{evid.V("reg-cache-returns-caller-edited-manifest", "client built with reg.WithCache; %s of %s: the manifest handed out for %s is the object an earlier call returned, which the caller has meanwhile edited: it reports digest %s and its bytes hash to %s (no request was sent): %s", c.Again, c.Entry, r.CommonName(), s2.Digest, got, clip(s2.Raw))}
+		}
+		return []*evid.Violation{evid.V("refetch-by-digest-returns-other-bytes:"+c.Again+":"+cacheLbl, "%s for %s returned a manifest that reports %s and whose bytes hash to %s: %s", c.Again, r.CommonName(), s2.Digest, got, clip(s2.Raw))}
+	}
+	return nil
 }
 
 // allCorrect: every supplied digest names the bytes, every media type hint is
@@ -647,12 +893,18 @@ func (c *CaseA) allCorrect(bodyStatesMT bool) bool {
 		return false
 	}
 	ref, desc, hdr := c.RefDig, c.DescDig, c.HdrDig
+	if c.Platform && (c.Family == "oci-index" || c.Family == "docker2-list") {
+		return false // the platform loop goes on below a list; whether it finds an entry is not this property
+	}
 	switch c.Entry {
 	case "reg-head":
 		desc = "absent"
-	case "layout-get":
+	case "layout-get", "layout-head":
 		hdr = "absent"
-	case "desc-data":
+	case "desc-data", "desc-data-layout":
+		if c.Entry == "desc-data-layout" {
+			hdr = "absent"
+		}
 		if c.Family == "schema1-signed" {
 			return false // an inline copy is addressed by the digest of the whole data
 		}
@@ -669,18 +921,23 @@ func (c *CaseA) allCorrect(bodyStatesMT bool) bool {
 	}
 	// a matching hint only counts as "the type is stated" where it reaches the constructor
 	switch c.Entry {
-	case "layout-get":
+	case "layout-get", "layout-head":
 		ct = "absent"
-		if c.DescDig == "absent" || (c.RefDig != "absent" && c.RefDig != c.DescDig) {
+		if c.Platform || c.DescDig == "absent" || (c.RefDig != "absent" && c.RefDig != c.DescDig) {
 			dm = "absent" // no index entry, or the entry is not the one the reference digest selects
 		}
 	case "reg-get", "reg-head":
-		dm = "absent" // only the digest of WithManifestDesc travels to the registry
+		dm = "absent" // only the digest of WithManifestDesc / of the index entry travels to the registry
 	case "desc-data":
 		if c.Inline != "ok" || c.DescSize == "wrong" {
 			dm = "absent" // the inline copy is unusable, the registry answers
 		} else {
 			ct = "absent" // the inline copy is used, the registry is never asked
+		}
+	case "desc-data-layout":
+		ct = "absent"
+		if c.Inline != "ok" || c.DescSize == "wrong" {
+			dm = "match" // the layout answers; the harness wrote the index entry with the true media type
 		}
 	}
 	if ct == "contradict" || dm == "contradict" {
@@ -716,8 +973,16 @@ func (c *CaseA) repush(f fetched, m manifest.Manifest, s snap, tag string, tmp f
 	if !ok || c.Repush == "none" || c.Repush == "" {
 		return nil
 	}
+	otherAlg := "sha512"
+	if alg == "sha512" {
+		otherAlg = "sha256"
+	}
+	otherDig := ""
+	if doc, ok, _ := named(s.MT, s.Raw); ok {
+		otherDig = hashOf(otherAlg, doc)
+	}
 	switch c.Repush {
-	case "reg-tag", "reg-digest":
+	case "reg-tag", "reg-digest", "reg-digest-otheralg":
 		model, rc := f.model, f.rc
 		if model == nil {
 			model, _, _ = newModel()
@@ -726,6 +991,15 @@ func (c *CaseA) repush(f fetched, m manifest.Manifest, s snap, tag string, tmp f
 		r, _ := mkRef(tgtHost+"/"+tgtRepo, true, "")
 		if c.Repush == "reg-digest" {
 			r = r.SetDigest(s.Digest)
+		}
+		if c.Repush == "reg-digest-otheralg" {
+			if otherDig == "" {
+				return nil
+			}
+			r = r.SetDigest(otherDig)
+		}
+		if c.DefaultTag && c.Repush == "reg-tag" {
+			r, _ = mkRefT(tgtHost+"/"+tgtRepo, true, "", true)
 		}
 		err := rc.ManifestPut(ctx, r, m)
 		var put *rm.Entry
@@ -747,7 +1021,16 @@ func (c *CaseA) repush(f fetched, m manifest.Manifest, s snap, tag string, tmp f
 		if ct := put.Header.Get("Content-Type"); ct != s.MT {
 			add("repush-content-type-differs", "ManifestPut sent Content-Type %q, the fetched manifest reports %q", ct, s.MT)
 		}
-		if c.Repush == "reg-digest" {
+		if c.Repush == "reg-digest-otheralg" {
+			// the caller names the same bytes in the other algorithm
+			if put.Ref != otherDig {
+				add("repush-digest-differs", "ManifestPut to %s used path reference %q", r.CommonName(), put.Ref)
+			}
+			if len(vs) == 0 {
+				ev.Class("repush:reg-otheralg:" + map[bool]string{true: "ok", false: "error"}[err == nil])
+			}
+			return vs
+		} else if c.Repush == "reg-digest" {
 			if put.Ref != s.Digest {
 				add("repush-digest-differs", "ManifestPut by digest used path reference %q, the fetched manifest is %s", put.Ref, s.Digest)
 			}
@@ -780,7 +1063,7 @@ func (c *CaseA) repush(f fetched, m manifest.Manifest, s snap, tag string, tmp f
 				}
 			}
 		}
-	case "layout-tag", "layout-digest":
+	case "layout-tag", "layout-digest", "layout-digest-otheralg":
 		dir := tmp()
 		rc := f.rc
 		if rc == nil {
@@ -789,6 +1072,55 @@ func (c *CaseA) repush(f fetched, m manifest.Manifest, s snap, tag string, tmp f
 		r, _ := mkRef("ocidir://"+dir, true, "")
 		if c.Repush == "layout-digest" {
 			r = r.SetDigest(s.Digest)
+		}
+		if c.DefaultTag && c.Repush == "layout-tag" {
+			r, _ = mkRefT("ocidir://"+dir, true, "", true)
+		}
+		if c.Repush == "layout-digest-otheralg" {
+			if otherDig == "" {
+				return nil
+			}
+			r = r.SetDigest(otherDig)
+			if err := rc.ManifestPut(ctx, r, m); err != nil {
+				ev.Class("repush:layout-otheralg:error")
+				return nil
+			}
+			// every blob file holds the bytes its name hashes to, and the manifest's bytes are among them
+			found := false
+			for _, a := range []string{"sha256", "sha512"} {
+				des, _ := os.ReadDir(filepath.Join(dir, "blobs", a))
+				for _, de := range des {
+					if strings.HasSuffix(de.Name(), ".tmp") {
+						continue
+					}
+					b, err := os.ReadFile(filepath.Join(dir, "blobs", a, de.Name()))
+					if err != nil {
+						continue
+					}
+					nmb := b
+					if s.MT == mtDocker1Sig {
+						if p, ok, _ := jwsPayload(b); ok {
+							nmb = p
+						}
+					}
+					if hashOf(a, nmb) != a+":"+de.Name() {
+						add("repush-layout-blob-name-not-hash-of-content", "after ManifestPut(%s) blob %s/%s does not hold bytes that hash to its name", r.CommonName(), a, de.Name())
+					}
+					if bytes.Equal(b, s.Raw) {
+						found = true
+					}
+				}
+			}
+			if !found {
+				add("repush-layout-body-differs", "after ManifestPut(%s) no blob file holds the manifest's bytes", r.CommonName())
+			}
+			// observation only: can the manifest be read back under the name it was pushed to?
+			if m3, err := rc.ManifestGet(ctx, r); err == nil && m3.IsSet() {
+				ev.Class("repush:layout-otheralg:ok-readable")
+			} else {
+				ev.Class("repush:layout-otheralg:ok-not-readable-under-pushed-digest")
+			}
+			return vs
 		}
 		if err := rc.ManifestPut(ctx, r, m); err != nil {
 			ev.Class("repush:layout-error")
